@@ -227,6 +227,13 @@ def _public(key):
 
         def make_raised(ex, E, bound):
             return ex.new_object(RequestFailedException("failed"))
+
+        def make_result(ex, bound):
+            if key.endswith("read_runtime_data"):
+                # proved post-condition C15_keys_equal_sensors: the keys are the ids of sensors()
+                inv = bound["self"]
+                return {s.id_: ex.fresh_any("val_" + s.id_) for s in ex.call(inv.sensors, [], {})}
+            return None
     K.__name__ = "Public_" + key.replace(".", "_")
     from pyvc.api import REGISTRY, Contract
     REGISTRY[key] = Contract(key, K)
